@@ -17,144 +17,7 @@ global size_of usize == 8;
 pub assume_specification<T: Default> [core::mem::take::<T>] (dest: &mut T) -> (r: T)
     ensures r == *old(dest);
 
-// ---------------------------------------------------------------- what one entry decodes to
-struct EntryV { shared: int, frag: Seq<u8>, ts: u64, val: Option<(int, int)>, next: int }
-uninterp spec fn entry_at(bytes: Seq<u8>, off: int, boundary: int) -> Option<EntryV>;
-// ASSUMED: a decoded entry consumes at least one byte, ends at or before the boundary, and its value (a sub-slice
-// of the input) lies inside the bytes it consumed
-#[verifier::external_body]
-proof fn axiom_entry(bytes: Seq<u8>, off: int, boundary: int)
-    ensures entry_at(bytes, off, boundary) is Some ==> ({
-        let e = entry_at(bytes, off, boundary)->Some_0;
-        &&& off < e.next <= boundary && e.shared >= 0
-        &&& e.val is Some ==> off <= e.val->Some_0.0 && e.val->Some_0.1 >= 0 && e.val->Some_0.0 + e.val->Some_0.1 <= e.next
-    })
-{ }
-
-// Arc<Vec<u8>> read as Vec<u8>
-struct Block { bytes: Vec<u8>, restarts_boundary: usize, restarts_idx: usize, num_restarts: usize }
-
-spec fn le32(s: Seq<u8>, i: int) -> int { s[i] as int + 256 * (s[i + 1] as int) + 65536 * (s[i + 2] as int) + 16777216 * (s[i + 3] as int) }
-// `u32::from_le_bytes(restart)` (std; its array-length type is a const expression Verus cannot name)
-#[verifier::external_body]
-fn u32_from_le_bytes(b: [u8; 4]) -> (r: u32)
-    ensures r as int == le32(b@, 0),
-{ unimplemented!() }
-
-impl Block {
-    spec fn bnd(&self) -> int { self.restarts_boundary as int }
-    spec fn rp(&self, r: int) -> int { le32(self.bytes@, self.restarts_idx as int + 4 * r) }
-    spec fn layout(&self) -> bool {
-        self.restarts_boundary <= self.restarts_idx && self.restarts_idx + 4 * self.num_restarts <= self.bytes@.len() && self.num_restarts >= 1
-            && self.bytes@.len() <= 0x4000_0000   // blocks are far below the table size limit
-    }
-    // offset and key of the j-th entry of the chain
-    spec fn off_at(&self, j: int) -> int
-        decreases j
-    {
-        if j <= 0 { 0 } else {
-            match entry_at(self.bytes@, self.off_at(j - 1), self.bnd()) { Some(e) => e.next, None => self.bnd() }
-        }
-    }
-    spec fn ev(&self, j: int) -> EntryV { entry_at(self.bytes@, self.off_at(j), self.bnd())->Some_0 }
-    spec fn is_rp(&self, off: int) -> bool { exists|r: int| 0 <= r < self.num_restarts && #[trigger] self.rp(r) == off }
-    spec fn key_j(&self, j: int) -> Seq<u8>
-        decreases j
-    {
-        let e = self.ev(j);
-        let prev = if j <= 0 || self.is_rp(self.off_at(j)) { Seq::<u8>::empty() } else { self.key_j(j - 1) };
-        trunc(prev, e.shared) + e.frag
-    }
-    // n entries: the chain decodes n times and then stands exactly at the boundary
-    spec fn chain(&self, n: int) -> bool {
-        &&& n >= 0 && self.off_at(n) == self.bnd()
-        &&& forall|j: int| 0 <= j < n ==> #[trigger] self.off_at(j) < self.bnd() && entry_at(self.bytes@, self.off_at(j), self.bnd()) is Some
-    }
-    spec fn n(&self) -> int { choose|n: int| self.chain(n) }
-    spec fn ent(&self, j: int) -> Ent {
-        let e = self.ev(j);
-        Ent { key: self.key_j(j), ts: e.ts, val: match e.val { Some(v) => Some(self.bytes@.subrange(v.0, v.0 + v.1)), None => None } }
-    }
-    spec fn ents(&self) -> Seq<Ent> { Seq::new(self.n() as nat, |j: int| self.ent(j)) }
-    spec fn is_off(&self, off: int) -> bool { exists|j: int| 0 <= j < self.n() && #[trigger] self.off_at(j) == off }
-    // index of the entry at offset `off`
-    spec fn idx_of(&self, off: int) -> int { choose|j: int| 0 <= j < self.n() && #[trigger] self.off_at(j) == off }
-    spec fn wf(&self) -> bool {
-        &&& self.layout()
-        &&& self.n() >= 1 && self.chain(self.n())
-        &&& self.rp(0) == 0
-        &&& forall|r1: int, r2: int| 0 <= r1 < r2 < self.num_restarts ==> #[trigger] self.rp(r1) < #[trigger] self.rp(r2)
-        &&& forall|r: int| 0 <= r < self.num_restarts ==> self.is_off(#[trigger] self.rp(r))
-        // the builder writes a full key at every restart point
-        &&& forall|j: int| 0 <= j < self.n() && self.is_rp(#[trigger] self.off_at(j)) ==> self.ev(j).shared == 0
-        &&& self.sorted_ok()
-    }
-    #[verifier::opaque]
-    spec fn sorted_ok(&self) -> bool { sorted(self.ents()) }
-}
-spec fn trunc(s: Seq<u8>, k: int) -> Seq<u8> { if 0 <= k < s.len() { s.subrange(0, k) } else { s } }
-
-// ---------------------------------------------------------------- facts about the chain
-proof fn lemma_off_mono(b: Block, i: int, j: int)
-    requires b.chain(b.n()), 0 <= i < j <= b.n()
-    ensures b.off_at(i) < b.off_at(j)
-    decreases j - i
-{
-    axiom_entry(b.bytes@, b.off_at(j - 1), b.bnd());
-    if i < j - 1 { lemma_off_mono(b, i, j - 1); }
-}
-proof fn lemma_off_inj(b: Block, i: int, j: int)
-    requires b.chain(b.n()), 0 <= i <= b.n(), 0 <= j <= b.n(), b.off_at(i) == b.off_at(j)
-    ensures i == j
-{
-    if i < j { lemma_off_mono(b, i, j); } else if j < i { lemma_off_mono(b, j, i); }
-}
-proof fn lemma_idx_of(b: Block, j: int)
-    requires b.chain(b.n()), 0 <= j < b.n()
-    ensures b.idx_of(b.off_at(j)) == j
-{
-    let k = b.idx_of(b.off_at(j));
-    lemma_off_inj(b, k, j);
-}
-
-
-proof fn lemma_rp_mono(b: Block, a: int, c: int)
-    requires b.wf(), 0 <= a < c < b.num_restarts
-    ensures b.rp(a) < b.rp(c)
-{ }
-// no entry starts strictly between two consecutive entries
-proof fn lemma_no_gap(b: Block, j: int, k: int)
-    requires b.chain(b.n()), 0 <= j < b.n(), 0 <= k <= b.n(), b.off_at(j) < b.off_at(k)
-    ensures b.off_at(j + 1) <= b.off_at(k)
-{
-    if k <= j { if k < j { lemma_off_mono(b, k, j); } }
-    else if k > j + 1 { lemma_off_mono(b, j + 1, k); }
-}
-
-// stepping from entry j0 (in restart interval ri) to entry j0+1
-proof fn lemma_step_restart(b: Block, j0: int, ri: int)
-    requires b.wf(), 0 <= j0, j0 + 1 < b.n(), 0 <= ri, ri + 1 < b.num_restarts, b.off_at(j0) < b.rp(ri + 1), b.rp(ri + 1) <= b.off_at(j0 + 1)
-    ensures b.rp(ri + 1) == b.off_at(j0 + 1), b.idx_of(b.rp(ri + 1)) == j0 + 1
-{
-    assert(b.is_off(b.rp(ri + 1)));
-    let jr = b.idx_of(b.rp(ri + 1));
-    lemma_no_gap(b, j0, jr);
-    lemma_off_inj(b, jr, j0 + 1);
-}
-proof fn lemma_step_same(b: Block, j0: int, ri: int)
-    requires b.wf(), 0 <= j0, j0 + 1 < b.n(), 0 <= ri < b.num_restarts, b.rp(ri) <= b.off_at(j0),
-        ri + 1 < b.num_restarts ==> b.off_at(j0 + 1) < b.rp(ri + 1),
-    ensures !b.is_rp(b.off_at(j0 + 1)), entry_at(b.bytes@, b.off_at(j0 + 1), b.bnd()) is Some,
-        b.key_j(j0 + 1) == trunc(b.key_j(j0), b.ev(j0 + 1).shared) + b.ev(j0 + 1).frag,
-        b.off_at(j0 + 2) == b.ev(j0 + 1).next, b.rp(ri) <= b.off_at(j0 + 1),
-{
-    lemma_off_mono(b, j0, j0 + 1);
-    if b.is_rp(b.off_at(j0 + 1)) {
-        let r = choose|r: int| 0 <= r < b.num_restarts && #[trigger] b.rp(r) == b.off_at(j0 + 1);
-        if r < ri { lemma_rp_mono(b, r, ri); }
-        else if r > ri + 1 { lemma_rp_mono(b, ri + 1, r); }
-    }
-}
+//@ include block_spec.inc.rs
 
 // ---------------------------------------------------------------- the cursor
 //@ extract sst/src/block.rs | enum CursorPosition
@@ -575,11 +438,6 @@ proof fn lemma_before_interval(b: Block, r: int, k: Seq<u8>)
         if b.key_j(i) == k { lemma_lex_antisym(b.fk(r), k); }
     }
 }
-
-proof fn lemma_ents_index(b: Block, j: int)
-    requires 0 <= j < b.n()
-    ensures b.ents()[j] == b.ent(j), b.ents().len() == b.n()
-{ }
 
 impl Cursor for BlockCursor {
     spec fn ents(&self) -> Seq<Ent> { self.block.ents() }
